@@ -1194,6 +1194,7 @@ result_t NumberDataType::parseInput(const string inputStr, unsigned int* parsedV
     if (hasFlag(EXP)) {  // IEEE 754 binary32
       const char* str = inputStr.c_str();
       char* strEnd = nullptr;
+      errno = 0;
       double dvalue = strtod(str, &strEnd);
       if (errno == ERANGE || strEnd == nullptr || strEnd == str || *strEnd != 0) {
         return RESULT_ERR_INVALID_NUM;  // invalid value
@@ -1212,6 +1213,7 @@ result_t NumberDataType::parseInput(const string inputStr, unsigned int* parsedV
       char* strEnd = nullptr;
       if (m_divisor == 1) {
         if (hasFlag(SIG)) {
+          errno = 0;
           long signedValue = strtol(str, &strEnd, 0);
           if (errno == ERANGE
           || (m_bitCount != 32 && (signedValue < 0L ? (signedValue < -(1L << (m_bitCount - 1)))
@@ -1225,6 +1227,7 @@ result_t NumberDataType::parseInput(const string inputStr, unsigned int* parsedV
             value = (unsigned int)signedValue;
           }
         } else {
+          errno = 0;
           value = (unsigned int)strtoul(str, &strEnd, 0);
           if (errno == ERANGE || (m_bitCount != 32 && value >= (1U << m_bitCount))) {
             return RESULT_ERR_OUT_OF_RANGE;
@@ -1234,6 +1237,7 @@ result_t NumberDataType::parseInput(const string inputStr, unsigned int* parsedV
           return RESULT_ERR_INVALID_NUM;  // invalid value
         }
       } else {
+        errno = 0;
         double dvalue = strtod(str, &strEnd);
         if (errno == ERANGE || strEnd == nullptr || strEnd == str || *strEnd != 0) {
           return RESULT_ERR_INVALID_NUM;  // invalid value
